@@ -203,6 +203,8 @@ func basicMk(b, expr string) string {
 
 func basicVh(b, expr string) string {
 	switch b {
+	case "interface{}":
+		return "if v, ok := " + expr + ".(uint32); ok { return v }; return 0"
 	case "string":
 		return "return vrt.Atoi(string(" + expr + "))"
 	case "bool":
@@ -495,6 +497,8 @@ func vhCall(c *spec.Case, t spec.TypeID, from, arg string) string {
 			return "vrt.Atoi(" + arg + ")"
 		case "bool":
 			return "func() uint32 { if " + arg + " { return 1 }; return 0 }()"
+		case "interface{}":
+			return "func() uint32 { if v, ok := " + arg + ".(uint32); ok { return v }; return 0 }()"
 		}
 		return "uint32(" + arg + ")"
 	case spec.KPtr:
